@@ -231,7 +231,7 @@ def r2_matchers(a, tier):
     rep = RuleReport(
         'C09.R2b',
         'sibling token matchers (TextLinesCursor.match, BufferCursor.match, Buffer.match), interpreted on stand-in inputs for EVERY '
-        'text up to length 3 and token up to length 2 over {a, A, +}, positions 0 and 1 (thorough: every position), ignorecase on/off, nameguard on/off, '
+        'text up to length 3 and token up to length 2 over {a, A, +} (plus texts with ß, İ, ﬁ - characters whose case mappings change the length of the text - in front of the token), positions 0 and 1 (thorough: every position), ignorecase on/off, nameguard on/off, '
         '@@namechars {} / {+}: the token matches iff the text at the position equals it (case-folded on both sides under '
         'ignorecase) and, under nameguard, it is not a name followed by a name character (the character AFTER the token); a match '
         'returns the token and advances by its length, a rejection leaves the position unchanged; all three agree. matchre takes '
@@ -268,6 +268,9 @@ def r2_matchers(a, tier):
     alpha = 'aA+'
     texts = [''.join(t) for k in range(0, 4) for t in itertools.product(alpha, repeat=k)]
     tokens = [''.join(t) for k in (1, 2) for t in itertools.product(alpha, repeat=k)]
+    # ... and texts holding a character whose case mappings change the LENGTH of the text (ß -> ss / SS, İ -> i + combining dot): positions
+    # are positions of the text as given, whatever the folding does to what stands before them
+    texts += [''.join(t) for k in range(1, 4) for t in itertools.product('ßa', repeat=k) if 'ß' in t] + ['İa', 'İA', 'aİa', 'ﬁa']
     ncsets = [frozenset(), frozenset('+')]
     n_bad = 0
     for c in impls:
